@@ -99,6 +99,16 @@ impl<'a> Gen<'a> {
             Value::Object(o) => o,
             _ => return vec![],
         };
+        if let Some(Value::Array(all)) = o.get("allOf") {
+            // superset: candidates of the schema without the allOf and of every branch (the validator filters)
+            let mut rest = o.clone();
+            rest.remove("allOf");
+            let mut out = if rest.keys().any(|k| k != "$defs" && k != "x-guidance") { self.cands_inner(&Value::Object(rest), depth + 1) } else { vec![] };
+            for b in all.iter() {
+                out.extend(self.cands_inner(b, depth + 1));
+            }
+            return out;
+        }
         if let Some(c) = o.get("const") {
             return vec![c.clone()];
         }
@@ -210,7 +220,37 @@ impl<'a> Gen<'a> {
                         }
                     }
                     let extra_vals = if addl == json!(false) { vec![] } else { self.cands(&addl, depth + 1, 2) };
+                    // keys for patternProperties: a small pool per pattern (search semantics, as the validator)
+                    let mut pat_members: Vec<(String, Value)> = vec![];
+                    if let Some(pp) = o.get("patternProperties").and_then(|x| x.as_object()) {
+                        for (pat, ps) in pp.iter() {
+                            if let Ok(rx) = regex::Regex::new(pat) {
+                                let vals = self.cands(ps, depth + 1, 2);
+                                for k in ["x", "xa", "x-a", "x1", "y", "a", "ax"] {
+                                    if rx.is_match(k) {
+                                        for v in vals.iter() {
+                                            pat_members.push((k.to_string(), v.clone()));
+                                        }
+                                    }
+                                }
+                            }
+                        }
+                    }
                     for p in partial {
+                        for (i, (k, v)) in pat_members.iter().enumerate() {
+                            if !p.contains_key(k) {
+                                let mut q = p.clone();
+                                q.insert(k.clone(), v.clone());
+                                if let Some((k2, v2)) = pat_members.get(i + 1) {
+                                    if k2 != k {
+                                        let mut q2 = q.clone();
+                                        q2.insert(k2.clone(), v2.clone());
+                                        out.push(Value::Object(q2));
+                                    }
+                                }
+                                out.push(Value::Object(q));
+                            }
+                        }
                         out.push(Value::Object(p.clone()));
                         if !untyped {
                             for (n_extra, keys) in [(1usize, vec!["zz"]), (2, vec!["zz", "a b"]), (1, vec!["é\"k"])] {
@@ -348,10 +388,11 @@ fn c07_schemas(ctx: &Ctx) -> Vec<Value> {
     }
     v.extend(jsongen::array_schemas());
     for s in jsongen::object_schemas() {
-        if s.get("patternProperties").is_none() && s.get("minProperties").is_none() && s.get("maxProperties").is_none() {
+        if s.get("minProperties").is_none() && s.get("maxProperties").is_none() {
             v.push(s);
         }
     }
+    v.extend(jsongen::applicator_split_schemas());
     for s in jsongen::combinator_schemas() {
         if s.get("allOf").is_none() && s.get("oneOf").is_none() && s.get("x-guidance").is_none() && s.get("pattern").is_none() && s.get("format").is_none() && !s.to_string().contains("multipleOf\":3") {
             v.push(s);
